@@ -1043,7 +1043,7 @@ func runActor(args []string) {
 					roundSnaps = append(roundSnaps, sn)
 				}
 			}
-			nh := *bcases / 25
+			nh := *bcases / 12
 			if nh > 48 {
 				nh = 48
 			}
